@@ -4210,3 +4210,107 @@ mutant('C09-rows-for-populated-leaves-list-front-end', 'C09',
        [(_PA, "    cluster_list = list(leaf_to_cells.keys())\n",
          "    cluster_list = list(leaf_to_cells.keys())[:10000]\n")],
        'R-COVER/row-per-leaf', 'list_and_tree')
+
+# ----------------------------------------------------------------------
+# round 12
+# ----------------------------------------------------------------------
+twin('C08-twin-loop-over-parents-table', 'C08',
+     'the patching loop walks the table parents() returns (filled while '
+     'climbing from the node)',
+     [(_MC, "                for ancestor_level in reverse_hier:\n"
+       "                    if ancestor_level in ancestors:\n",
+       "                for ancestor_level in ancestors:\n"
+       "                    if ancestor_level in reverse_hier:\n")])
+twin('C08-twin-parents-rekeyed-loop-reversed', 'C08',
+     'parents() re-keyed in hierarchy order while the patching loop still '
+     'walks the reversed hierarchy',
+     [(_TT, "                this[current] = self._child_to_parent[prev]"
+       "[prev_node]\n        return this\n",
+       "                this[current] = self._child_to_parent[prev]"
+       "[prev_node]\n"
+       "        return {k: this[k] for k in self.hierarchy if k in this}\n")])
+mutant('C08-patching-loop-walks-hierarchy-top-down', 'C08',
+       'the patching loop walks the hierarchy from the top',
+       [(_MC, "        reverse_hier.reverse()\n", "")],
+       'R-PROV/ancestors-nearest-first', 'validate_marker_lookup')
+mutant('C09-extent-from-labelled-cells', 'C09',
+       'the per-file row extent counts the cells found in the lookup',
+       [(_PA, "            n_cells = len(cell_name_list)\n",
+         "            n_cells = len([c for c in cell_name_list\n"
+         "                           if c in desired_cells])\n")],
+       'R-PROV/row-extent', 'range')
+twin('C09-twin-extent-through-array', 'C09',
+     'the per-file row extent taken from the obs index array',
+     [(_PA, "            n_cells = len(cell_name_list)\n",
+       "            n_cells = len(np.array(cell_name_list))\n")])
+mutant('C10-validator-lowercases-children', 'C10',
+       'the validator compares lower-cased child names',
+       [(_TXU, "                if this_child not in child_set:\n",
+         "                if this_child.lower() not in child_set:\n")],
+       'R-EXH/validator-checks', 'child exists')
+mutant('C03-upward-pass-first', 'C03',
+       'the bottom-up correlation inheritance is placed before the '
+       'top-down one',
+       [(_EL, "        for parent_level, child_level in zip(hierarchy[:-1], "
+         "hierarchy[1:]):\n"
+         "            if cell[child_level]['avg_correlation'] is None:\n"
+         "                cell[child_level]['avg_correlation'] = \\\n"
+         "                    cell[parent_level]['avg_correlation']\n"
+         "        for child_level, parent_level in zip("
+         "reversed_hierarchy[:-1],\n"
+         "                                             "
+         "reversed_hierarchy[1:]):\n"
+         "            if cell[parent_level]['avg_correlation'] is None:\n"
+         "                cell[parent_level]['avg_correlation'] = \\\n"
+         "                    cell[child_level]['avg_correlation']\n",
+         "        for child_level, parent_level in zip("
+         "reversed_hierarchy[:-1],\n"
+         "                                             "
+         "reversed_hierarchy[1:]):\n"
+         "            if cell[parent_level]['avg_correlation'] is None:\n"
+         "                cell[parent_level]['avg_correlation'] = \\\n"
+         "                    cell[child_level]['avg_correlation']\n"
+         "        for parent_level, child_level in zip(hierarchy[:-1], "
+         "hierarchy[1:]):\n"
+         "            if cell[child_level]['avg_correlation'] is None:\n"
+         "                cell[child_level]['avg_correlation'] = \\\n"
+         "                    cell[parent_level]['avg_correlation']\n")],
+       'R-ORDER/correlation-inheritance', 'run_type_assignment')
+mutant('C20-exposure-skips-hidden-names', 'C20',
+       'is_exposed answers False for names starting with a dot',
+       [(P+'utils/cloud_utils.py',
+         "    if input_path.is_file() or input_path.is_dir():\n"
+         "        return True\n",
+         "    if input_path.name.startswith('.'):\n"
+         "        return False\n"
+         "    if input_path.is_file() or input_path.is_dir():\n"
+         "        return True\n")],
+       'R-MUST/exposure-walks-ancestors', 'return-false')
+mutant('C17-flatten-over-filtered-table', 'C17',
+       'the flat marker set is built from the groups of the levels the '
+       'reduced tree still has',
+       [(_FSM, "    if config['flatten']:\n\n"
+         "        taxonomy_tree = taxonomy_tree.flatten()\n",
+         "    if config['flatten']:\n\n"
+         "        marker_lookup = {\n"
+         "            k: v for k, v in marker_lookup.items()\n"
+         "            if k == 'None'\n"
+         "            or k.split('/')[0] in taxonomy_tree.hierarchy}\n"
+         "        taxonomy_tree = taxonomy_tree.flatten()\n")],
+       'R-COVER/flatten-union', 'flatten-table')
+mutant('C05-batch-shortcut-on-length', 'C05',
+       '_load_disjoint_csr reads the whole range when the request is as '
+       'long as its span',
+       [(_SU, "    sorted_dex = np.argsort(row_index_list)\n"
+         "    inverse_argsort = {",
+         "    if len(row_index_list) == 1 + row_index_list[-1] "
+         "- row_index_list[0]:\n"
+         "        return _load_sparse(\n"
+         "                   indptr_spec=(row_index_list[0],\n"
+         "                                row_index_list[-1]+1),\n"
+         "                   data=data,\n"
+         "                   indices=indices,\n"
+         "                   indptr=indptr)\n"
+         "    sorted_dex = np.argsort(row_index_list)\n"
+         "    inverse_argsort = {")],
+       'R-PERM/request-order', '_load_disjoint_csr')
